@@ -18,6 +18,7 @@
 
 #include <cctype>
 #include <cstdlib>
+#include <cstring>
 #include <string>
 
 namespace c35 {
@@ -117,6 +118,44 @@ namespace c54 {
     return false;
   }
 
+  /*!
+   * \return true if the input ends (blanks and comments removed) with `@Behaviour<interface,` or `@Model<interface,`:
+   * SingleStructureSchemeParser::handleBehaviour reads the wrapper name (`w = p->value; ++p;`) without checking
+   * the end of the tokens (C54.read_past_end.handleBehaviour_wrapper_at_end_of_file)
+   */
+  inline bool wrapperAtEndOfFile(const std::string& s) {
+    // z: the input without blanks and comments (strings kept as a quote)
+    std::string z;
+    const auto n = s.size();
+    std::size_t i = 0;
+    while (i < n) {
+      const char c = s[i];
+      if (c == '/' && i + 1 < n && s[i + 1] == '/') {
+        while (i < n && s[i] != '\n') ++i;
+        continue;
+      }
+      if (c == '/' && i + 1 < n && s[i + 1] == '*') {
+        i += 2;
+        while (i + 1 < n && !(s[i] == '*' && s[i + 1] == '/')) ++i;
+        i = (i + 1 < n) ? i + 2 : n;
+        continue;
+      }
+      if (!std::isspace(static_cast<unsigned char>(c))) z += c;
+      ++i;
+    }
+    if (z.empty() || z.back() != ',') return false;
+    auto e = z.size() - 1;
+    auto b = e;
+    while (b > 0 && (std::isalnum(static_cast<unsigned char>(z[b - 1])) || z[b - 1] == '_')) --b;
+    if (b == e || b == 0 || z[b - 1] != '<') return false;
+    const auto head = z.substr(0, b - 1);
+    auto ends = [&head](const char* k) {
+      const auto l = std::strlen(k);
+      return head.size() >= l && head.compare(head.size() - l, l, k) == 0;
+    };
+    return ends("@Behaviour") || ends("@Model");
+  }
+
   //! \return true if a `@Description {` block is still opened at the end of the input (plain brace counting)
   inline bool unterminatedDescription(const std::string& s) {
     const auto n = s.size();
@@ -165,12 +204,15 @@ namespace c54 {
    * C54.read_past_end.handleDescription_unterminated: a `@Description {` block which is not closed before the
    * end of the file: the loop of SchemeParserBase::handleDescription tests `p->value` before `p != end`.
    *
+   * C54.read_past_end.handleBehaviour_wrapper_at_end_of_file: see wrapperAtEndOfFile.
+   *
    * C54.heap-buffer-overflow.treatKeyword_at_end_of_file: the last token of the file (comments removed) is
    * a `@Keyword`: {SchemeParserBase,SingleStructureSchemeParser,MTestParser,PipeTestParser}::treatKeyword do
    * `++p; const auto line = p->line;` without checking p against the end of the tokens.
    */
   inline const char* knownClass(const std::string& s) {
     if (unterminatedDescription(s)) return "C54.read_past_end.handleDescription_unterminated";
+    if (wrapperAtEndOfFile(s)) return "C54.read_past_end.handleBehaviour_wrapper_at_end_of_file";
     // last token, comments removed (c1, c2: the last two characters which are neither blank nor in a comment)
     std::string last;
     std::string cur;
@@ -221,7 +263,9 @@ namespace c54 {
     if (!cur.empty()) last = cur;
     // `;` is registered as a keyword (SchemeParserBase::handleLonelySeparator): a file reduced to `;` or ending
     // with `;;` ends with a keyword
-    if (c2 == ';' && (c1 == ';' || c1 == 0)) return "C54.heap-buffer-overflow.treatKeyword_at_end_of_file";
+    // (C54.heap-buffer-overflow.handleLonelySeparator_at_end_of_file: the handler reads p->line, p->offset of
+    // the iterator which follows the `;`)
+    if (c2 == ';' && (c1 == ';' || c1 == 0)) return "C54.heap-buffer-overflow.handleLonelySeparator_at_end_of_file";
     // does it end with @identifier (not preceded by an identifier character)?
     auto e = last.size();
     while (e > 0 && (std::isalnum(static_cast<unsigned char>(last[e - 1])) || last[e - 1] == '_')) --e;
